@@ -5,6 +5,7 @@ import (
 	"flag"
 	"fmt"
 	"os"
+	"os/exec"
 	"path/filepath"
 	"regexp"
 	"sort"
@@ -237,8 +238,37 @@ func cmdCheck(args []string) int {
 	}
 	sort.Strings(axioms)
 	selftest := map[string]any{}
+	leanInfo := map[string]any{}
 	if *tier == "thorough" {
 		selftest = runSelftest(prop)
+	}
+	// pure-mathematics lemmas proved in Lean 4 / Mathlib and imported by contracts as named axioms:
+	// re-checked by the Lean kernel in the thorough tier (loading Mathlib takes from 10 s to minutes).
+	if files := leanFilesFor(prop); len(files) > 0 {
+		leanInfo["files"] = files
+		if *tier == "thorough" {
+			for _, f := range files {
+				total++
+				tl := time.Now()
+				cmd := exec.Command("lean", f)
+				cmd.Dir = filepath.Join(verifDir, "lean")
+				outB, err := cmd.CombinedOutput()
+				if err == nil && !strings.Contains(string(outB), "error") {
+					discharged++
+					byBackend["lean"]++
+					samples = append(samples, map[string]any{"obligation": "lean." + f, "kind": "lemma", "solver": "lean4+mathlib", "time_s": round3(time.Since(tl).Seconds())})
+				} else {
+					violations++
+					failedNames = append(failedNames, "lean."+f)
+					path := writeReplay(prop, "lean."+f, "Lean rejected the lemma file:\n"+firstLines(string(outB), 30), "")
+					fmt.Printf("VIOLATION property=%s replay=%s no-failing-input-found\n", prop, path)
+				}
+			}
+			leanInfo["rechecked"] = true
+		} else {
+			leanInfo["rechecked"] = false
+			leanInfo["note"] = "axioms proved in Lean are re-checked only in the thorough tier"
+		}
 	}
 	ev := evidence{
 		PropertyID: prop, Tier: *tier, Seed: seed, Level: "proof",
@@ -261,6 +291,7 @@ func cmdCheck(args []string) int {
 			"known_findings_reported":  known,
 			"failed_obligations":       failedNames,
 			"selftest":                 selftest,
+			"lean_lemmas":              leanInfo,
 			"per_obligation_timeout_s": timeout,
 		},
 		Assumptions: assumptions,
@@ -362,4 +393,20 @@ func replayFile(path string) int {
 		return 1
 	}
 	return 1
+}
+
+// leanFilesFor reads /verif/lean/index.txt ("<property> <file.lean> <theorem>") and returns the files of a property.
+func leanFilesFor(prop string) []string {
+	data, err := os.ReadFile(filepath.Join(verifDir, "lean", "index.txt"))
+	if err != nil {
+		return nil
+	}
+	var out []string
+	for _, line := range strings.Split(string(data), "\n") {
+		f := strings.Fields(line)
+		if len(f) >= 2 && f[0] == prop {
+			out = append(out, f[1])
+		}
+	}
+	return out
 }
